@@ -666,7 +666,7 @@ func verbsWorker(w *vf.Worker) {
 	}{{"cut", b.cut}, {"template", b.template}, {"reorder", b.reorder}, {"rename", b.rename}, {"label", b.label}, {"regularize", b.regularize},
 		{"sort-within-records", b.sortWithinRecords}, {"unsparsify", b.unsparsify}, {"sparsify", b.sparsify}, {"fill-empty", b.fillEmpty},
 		{"nest", b.nest}, {"reshape", b.reshape}, {"flatten", b.flattenUnflatten}, {"json", b.jsonVerbs}, {"sec2gmt", b.sec2gmt},
-		{"altkv", b.altkv}, {"case", b.caseVerb}, {"unspace", b.unspace}, {"subs", b.subs}, {"hashmodes", b.hashModes}} {
+		{"altkv", b.altkv}, {"case", b.caseVerb}, {"unspace", b.unspace}, {"subs", b.subs}, {"hashmodes", b.hashModes}, {"wide", b.wide}} {
 		if onlyVerb != "" && onlyVerb != v.name {
 			continue
 		}
@@ -689,5 +689,6 @@ func verbAssumptions(c *vf.Ctx) {
 	c.Assume("nest explode whose generated keys collide with existing keys, reshape wide-to-long whose -o names collide with other fields, altkv with repeated key texts: not asserted beyond 'no duplicate keys in an output record'")
 	c.Assume("inverse-pair laws are asserted on their natural domain: nest/reshape need records whose other-field value tuples are pairwise distinct (else the inverse legitimately merges them), reshape additionally needs the -i fields to be the record's trailing fields in -i order for field-order equality (otherwise equality up to field order); flatten/unflatten needs no empty key pieces, no separator inside keys, no map with keys 1..n (documented arrayification) and no string values \"{}\"/\"[]\"")
 	c.Assume("case -t (title case) is asserted only on space-separated ASCII words; sentence/upper/lower on ASCII")
+	c.Assume("width families (verbs_w.go): regex lists whose members match disjoint sets of fields (which regex claims a field matching several is documented for reorder -r only); sort-within-records -f / -r {regex}: only 'named keys ascending, others keep their order, nothing lost' (where the sorted block goes is not documented); unflatten: the position of the gathered field is not asserted; sec2gmt on integer inputs against Go's time package (rounding of dropped decimals not asserted); sub/gsub/ssub on a named non-string value not asserted; DKVP-mode outputs are compared after Miller's from-data type inference (ints bare, everything else strings)")
 	c.Assume("sub/gsub/ssub verb == DSL function only for string-typed values (the verbs leave numbers alone, the functions' handling of numbers is C15's subject)")
 }
